@@ -1,5 +1,5 @@
 #!/venv/bin/python
-"""Seeded-defect bookkeeping.
+"""Seeded-defect bookkeeping (SEED_SUFFIX=-r2 names a later round).
 
   seeds.py confirm <src dir> ...   confirm sub-agent results (patch.diff, demo.py, notes.md):
                                    scratch worktree of /repo, apply, full suite, demo must fail;
@@ -84,7 +84,7 @@ def confirm(srcs):
         s = s.rstrip('/')
         prop = os.path.basename(os.path.dirname(s))
         k = os.path.basename(s)
-        sid = '%s-%s' % (prop, k)
+        sid = '%s-%s%s' % (prop, k, os.environ.get('SEED_SUFFIX', ''))
         if os.path.exists(os.path.join(SEEDED, sid, 'meta.json')):
             continue
         if not os.path.exists(os.path.join(s, 'patch.diff')):
